@@ -117,13 +117,23 @@ def run(program, res, tier):
         if isinstance(comp, ast.ListComp) and any("dtype" in unparse(i) for g_ in comp.generators for i in g_.ifs):
             arms = [comp.elt.body, comp.elt.orelse] if isinstance(comp.elt, ast.IfExp) else [comp.elt]
             for arm in arms:
-                if any(isinstance(c, ast.Call) and dotted_name(c.func) == "type" for c in ast.walk(arm)):
+                # an arm may hand the column to a helper of the module: the helper's body is what collects
+                hmod = program.module("eval_cache")
+                helpers = [hmod.functions[c.func.id].node for c in ast.walk(arm) if isinstance(c, ast.Call) and isinstance(c.func, ast.Name) and c.func.id in hmod.functions]
+                scope = [arm] + helpers
+                if any(isinstance(c, ast.Call) and dotted_name(c.func) == "type" for s_ in scope for c in ast.walk(s_)):
                     res.ok("C25-S1", f"`{unparse(arm)[:50]}` collects the types of the values")
                     # an arm that reads the categories instead of the cells has to say which cell holds which category as well (pandas hashes
                     # object categories through str(): [1, '1', 1] and ['1', 1, '1'] over the categories [1, '1'] hash alike)
-                    txt = unparse(arm)
+                    txt = " ".join(unparse(s_) for s_ in scope)
                     if ".categories" in txt:
-                        if ".codes" in txt:
+                        raw = [c for s_ in scope for c in ast.walk(s_) if isinstance(c, ast.Call) and isinstance(c.func, ast.Attribute) and c.func.attr in ("tobytes", "tolist")
+                               and ".codes" in unparse(c.func.value) and not any(isinstance(x, ast.Subscript) and ".codes" in unparse(x.slice) for x in ast.walk(c.func.value))]
+                        if raw:
+                            res.fail_at("C25-S1", hd, "category-codes-hashed-raw",
+                                        f"`{unparse(raw[0])[:60]}` puts the raw codes into the key: they number the categories in the order the column lists them, so two equal "
+                                        f"categorical frames (DataFrame.equals) whose categories are listed in another order get different keys and get() raises KeyError", raw[0])
+                        elif ".codes" in txt:
                             res.ok("C25-S1", "the categorical arm hashes the codes (which cell holds which category) with the categories' types")
                         else:
                             res.fail_at("C25-S1", hd, "category-cells-not-in-key",
